@@ -15,6 +15,7 @@ package multinode
 
 import (
 	"context"
+	"encoding/json"
 	"strings"
 	"sync"
 	"sync/atomic"
@@ -119,6 +120,9 @@ func (s *Service) handleAttestationsError(ctx context.Context,
 ) error {
 	serverType, _ := s.serviceInfo(ctx, submitter)
 	switch {
+	case serverType == "lighthouse" && !lighthouseAttestationFailuresTolerated(err.Error()):
+		// The answer lists failures per attestation and one of them is not one we tolerate;
+		// a tolerated failure elsewhere in the list does not make up for that.
 	case serverType == "lighthouse" && strings.Contains(err.Error(), "PriorAttestationKnown"):
 		// Lighthouse rejects duplicate attestations.  It is possible that an attestation we sent
 		// to another node already propagated to this node, so ignore the error.
@@ -142,4 +146,28 @@ func (s *Service) handleAttestationsError(ctx context.Context,
 	}
 
 	return err
+}
+
+// lighthouseAttestationFailuresTolerated returns false if the error carries a list of
+// per-attestation failures of which at least one is not a failure that we tolerate.
+// An error without such a list is judged by its text as a whole.
+func lighthouseAttestationFailuresTolerated(errorStr string) bool {
+	jsonIndex := strings.Index(errorStr, "{")
+	if jsonIndex == -1 {
+		return true
+	}
+	resp := lhErrorResponse{}
+	if err := json.Unmarshal([]byte(errorStr[jsonIndex:]), &resp); err != nil {
+		return true
+	}
+	for _, failure := range resp.Failures {
+		if failure == nil {
+			continue
+		}
+		if !strings.Contains(failure.Message, "PriorAttestationKnown") && !strings.Contains(failure.Message, "UnknownHeadBlock") {
+			return false
+		}
+	}
+
+	return true
 }
